@@ -9,5 +9,7 @@ pub mod ops;
 pub mod ptworld;
 pub mod report;
 pub mod scriptfs;
+#[cfg(not(feature = "asyncio"))]
+pub mod sched;
 pub mod wire;
 pub mod engines;
